@@ -22,6 +22,7 @@ EXPLANATION = (
     "missing or being created."
     ' (e) No caller makes Job.init() conditional on an existence test of the job directory.'
     ' (f) In _StatePointDict.save the clean-up deletion of the state point file is unreachable for EEXIST / EACCES (handler evaluated for abstract error kinds); (g) no signac collection brings its own _save_to_resource staging under a fixed name, and the document accessors write nothing.'
+    ' C12-f also decides that EEXIST / EACCES of the state point write are tolerated (not re-raised), following the abstract error through nested try statements, in save() or - when save() was written out - in init(). (h) project-level sync attempts the clone and handles DestinationExistsError instead of probing first (C12-h).'
 )
 UNDECIDED = ("Interleavings are not explored: freedom from races, 'every process completes without error' and the final "
              "content being that of some sequential execution are not decided.")
